@@ -80,6 +80,7 @@ pub enum OpK {
     Join,
     JoinPark,
     AwaitParked,
+    Rendezvous,
     QueryStopped,
     QueryRunning,
     Yield,
